@@ -92,7 +92,7 @@ class C03(Check):
     world = 'chain'
     level = 'fault_enumeration'
     design_ref = 'DESIGN.md 3.2'
-    runs = {'quick': 3000, 'thorough': 60000}
+    runs = {'quick': 3000, 'thorough': 40000}
     shrink_lists = (('ops',), ('config', 'outer'), ('config', 'sub'), ('config', 'route'))
     rule = ('generated middleware stacks at application / embedded-application / route level (unique, non-unique, '
             'non-reorderable types; any subset of request/endpoint/render functions; endpoint returning context or '
